@@ -1,11 +1,17 @@
 package verifh
 
 import (
+	"bytes"
 	"fmt"
 	"io"
 	"os"
 	"path/filepath"
+	"sort"
+	"syscall"
 	"testing"
+
+	"github.com/spf13/afero"
+	pfs "github.com/xakep666/ps3netsrv-go/pkg/fs"
 )
 
 // C09: a generated image behaves as one fixed byte string under any Read/Seek/ReadAt sequence.
@@ -15,7 +21,7 @@ func c09Sizes() []int64 { return []int64{0, 1, 2047, 2048, 2049} }
 func TestC09(t *testing.T) {
 	r := NewReporter(t)
 	defer r.Done()
-	r.Rule("every tree with <= N nodes (file sizes 0,1,2047,2048,2049), both modes for a subset, plus the directory-shape families of C07 (entries per directory, exact sector fit, depth, many directories, symbolic links) with a reduced offset set: canonical image = one sequential read; then all single ops and op sequences of depth <= 3 (Seek.Read.Read, Read.ReadAt.Read, relative/end seeks, refused seeks followed by reads, one long-lived handle: whole pass, revisits, second pass) over offsets = structural boundaries (metadata end, each file start/end/padded end, pad-area start, size) +-1 and lengths {1,2,2047,2048,2049,65536,65537, to-next-boundary +-1}; oracle = bytes.Reader semantics over the canonical image; distinct by (tree, mode, op sequence)")
+	r.Rule("every tree with <= N nodes (file sizes 0,1,2047,2048,2049), both modes for a subset, plus the directory-shape families of C07 (entries per directory, exact sector fit, depth, many directories, symbolic links) with a reduced offset set: canonical image = one sequential read; then all single ops and op sequences of depth <= 3 (Seek.Read.Read, Read.ReadAt.Read, relative/end seeks, refused seeks followed by reads, one long-lived handle: whole pass, revisits, second pass; pairs of member files read in alternating pieces; the same with the n-th Open/Close/Seek/Read/ReadAt on a member failing) over offsets = structural boundaries (metadata end, each file start/end/padded end, pad-area start, size) +-1 and lengths {1,2,2047,2048,2049,65536,65537, to-next-boundary +-1}; oracle = bytes.Reader semantics over the canonical image; distinct by (tree, mode, op sequence)")
 	base := filepath.Join(scratchBase(), sprintf("verifh-c09-%d", os.Getpid()))
 	root := filepath.Join(base, "root")
 	defer os.RemoveAll(base)
@@ -232,7 +238,126 @@ func c09Case(r *Reporter, root, desc string, treeRep any, build func(dir string)
 		}
 		run(ops)
 	}
+	// several member files read in alternating pieces through one handle (what a console does when it loads two
+	// files side by side): whatever the view remembers about one member survives reads of another
+	exts := fileExtentsOf(img)
+	if len(exts) > 4 {
+		exts = exts[:4]
+	}
+	for ai, a := range exts {
+		for bi, b := range exts {
+			if ai == bi {
+				continue
+			}
+			for _, x := range uniqSorted([]int64{1, a[1] / 2, a[1] - 1}) {
+				if x <= 0 || x >= a[1] {
+					continue
+				}
+				nb := int(min(b[1], 7))
+				run([]ioOp{{Kind: "readat", N: int(x), Off: a[0]}, {Kind: "readat", N: nb, Off: b[0]}, {Kind: "readat", N: int(a[1] - x), Off: a[0] + x}, {Kind: "readat", N: int(b[1]) - nb + 1, Off: b[0] + int64(nb)}})
+				run([]ioOp{{Kind: "seek", Off: a[0], Whence: io.SeekStart}, {Kind: "read", N: int(x)}, {Kind: "seek", Off: b[0], Whence: io.SeekStart}, {Kind: "read", N: nb},
+					{Kind: "seek", Off: a[0] + x, Whence: io.SeekStart}, {Kind: "read", N: int(a[1] - x)}, {Kind: "seek", Off: b[0] + int64(nb) - a[0] - a[1], Whence: io.SeekCurrent}, {Kind: "read", N: 2049}})
+			}
+		}
+	}
+	// the same with the filesystem failing one operation on a member (descriptor table full, I/O error): the failed
+	// call may report an error, but nothing panics and every later positional read is still the right slice
+	if len(exts) >= 2 && !minimal {
+		a, b := exts[0], exts[1]
+		for _, kind := range []string{"Open", "Close", "Seek", "Read", "ReadAt"} {
+			for nth := 1; nth <= 3; nth++ {
+				leaf := newVFs(afero.NewOsFs(), "leaf")
+				leaf.record = false
+				armed, seen := false, 0
+				leaf.Hook = func(e FsEvent) *FsFault {
+					if !armed || e.Op != kind {
+						return nil
+					}
+					seen++
+					if seen == nth {
+						return &FsFault{Err: syscall.EMFILE}
+					}
+					return nil
+				}
+				why := ""
+				func() {
+					defer func() {
+						if p := recover(); p != nil {
+							why = sprintf("panic: %v", p)
+						}
+					}()
+					view, err := pfs.NewVirtualISO(afero.NewBasePathFs(leaf, root), "/T", ps3)
+					if err != nil {
+						return
+					}
+					defer view.Close()
+					rd := func(off int64, n int, must bool) {
+						if why != "" || n <= 0 {
+							return
+						}
+						buf := make([]byte, n)
+						k, err := view.ReadAt(buf, off)
+						r.Transition(1)
+						if k > 0 {
+							got, want := append([]byte{}, buf[:k]...), append([]byte{}, img[off:off+int64(k)]...)
+							mask(off, got)
+							mask(off, want)
+							if !bytes.Equal(got, want) {
+								why = sprintf("ReadAt(%d bytes at %d) returned wrong bytes: %s", n, off, describeDiff(got, want))
+							}
+						}
+						if must && (k != n || err != nil && err != io.EOF) && why == "" {
+							why = sprintf("ReadAt(%d bytes at %d) before any fault returned (%d, %v)", n, off, k, err)
+						}
+					}
+					rd(a[0], 1, true)
+					armed = true
+					rd(b[0], int(min(b[1], 100)), false)
+					rd(a[0], int(min(a[1], 100)), false)
+					rd(b[0], int(min(b[1], 100)), false)
+					armed = false
+					rd(b[0], int(b[1]), false)
+					rd(a[0], int(a[1]), false)
+					rd(0, int(min(announced, 70000)), false)
+				}()
+				r.Eval(1)
+				if why != "" {
+					r.Outcome("member-fault:bad")
+					r.Violation("C09:member-fault:"+kind, sprintf("%s: %s no. %d on the member files fails with EMFILE while two members are read alternately: %s", desc, kind, nth, why), rep(nil))
+				} else {
+					r.Outcome("member-fault:ok")
+				}
+			}
+		}
+	}
 	if sample {
 		r.Sample(map[string]any{"tree": desc, "image_size": announced, "boundaries": bounds})
 	}
+}
+
+// fileExtentsOf lists (start, length) of the non-empty single-extent files of a generated image, by position.
+func fileExtentsOf(img []byte) [][2]int64 {
+	var out [][2]int64
+	if int64(len(img)) < 19*2048 {
+		return nil
+	}
+	var p isoProblems
+	pvd := parseVolDesc(memImage(img), 16, &p)
+	if pvd.Type != 1 {
+		return nil
+	}
+	h := walkHierarchy(memImage(img), pvd, &p)
+	var rec func(n *isoNode)
+	rec = func(n *isoNode) {
+		for _, c := range n.Children {
+			if c.IsDir {
+				rec(c)
+			} else if len(c.Extents) == 1 && c.Extents[0].Len > 1 {
+				out = append(out, [2]int64{int64(c.Extents[0].LBA) * 2048, int64(c.Extents[0].Len)})
+			}
+		}
+	}
+	rec(h.Root)
+	sort.Slice(out, func(i, j int) bool { return out[i][0] < out[j][0] })
+	return out
 }
